@@ -22,6 +22,37 @@ class Panics(NoEval):
 _FMT_CACHE = {}
 
 
+def rust_float(x, debug=False):
+    """`{}` / `{:?}` of an f64 as Rust prints it: the shortest digits that round-trip; Display is always positional (and drops a trailing `.0`);
+    Debug keeps `.0` and switches to exponent form below 1e-4 and from 1e16 on"""
+    import math
+    from decimal import Decimal
+    if math.isnan(x):
+        return 'NaN'
+    if math.isinf(x):
+        return 'inf' if x > 0 else '-inf'
+    d = Decimal(repr(x))
+    if debug and x != 0 and (abs(x) < 1e-4 or abs(x) >= 1e16):
+        sign, digits, exp = d.as_tuple()
+        digits = list(digits)
+        while len(digits) > 1 and digits[-1] == 0:
+            digits.pop()
+            exp += 1
+        e10 = exp + len(digits) - 1
+        m = str(digits[0]) + ('.' + ''.join(map(str, digits[1:])) if len(digits) > 1 else '')
+        return '%s%se%d' % ('-' if sign else '', m, e10)
+    s = format(d, 'f')
+    if '.' in s:
+        s = s.rstrip('0')
+        if s.endswith('.'):
+            s = s[:-1]
+    if debug and '.' not in s:
+        s += '.0'
+    if s in ('-0', '-0.0') and not math.copysign(1, x) < 0:
+        s = s[1:]
+    return s
+
+
 class FmtArgs(str):
     """the text of an evaluated format_args!"""
 
@@ -362,12 +393,37 @@ class Interp:
                 parts = tmpl.split('{}')
                 if len(parts) != len(vals) + 1:
                     raise NoEval('format placeholders')
+                # the formatting trait of each placeholder: `let args = [Argument::new_display(args.0), Argument::new_debug(args.1), ..]`
+                kinds = []
+                if len(b['stmts']) >= 2 and b['stmts'][1].get('k') == 'Let' and b['stmts'][1].get('init') is not None:
+                    arr_ = hir.strip(b['stmts'][1]['init'])
+                    for it_ in (arr_.get('items') or []) if arr_.get('k') == 'Array' else []:
+                        it_ = hir.strip(it_)
+                        cn_ = (hir.callee(it_) or '') if it_.get('k') == 'Call' else ''
+                        fld_ = hir.strip(it_['args'][0]) if it_.get('k') == 'Call' and it_.get('args') else {}
+                        kinds.append((cn_.rsplit('::', 1)[-1], int(fld_['name']) if fld_.get('k') == 'Field' and str(fld_.get('name', '')).isdigit() else None))
+                if kinds and (len(kinds) != len(vals) or [k_[1] for k_ in kinds] != list(range(len(vals)))):
+                    raise NoEval('format arguments used out of order or more than once')
                 out = parts[0]
-                for v, rest in zip(vals, parts[1:]):
+                for i_, (v, rest) in enumerate(zip(vals, parts[1:])):
+                    kind_ = kinds[i_][0] if kinds else 'new_display'
+                    if kind_ not in ('new_display', 'new_debug'):
+                        raise NoEval('formatting trait %s' % kind_)
+                    dbg_ = kind_ == 'new_debug'
+                    if isinstance(v, Cell):
+                        v = v.get()
                     if isinstance(v, bool):
                         v = 'true' if v else 'false'
                     elif isinstance(v, float):
-                        raise NoEval('float formatting')
+                        v = rust_float(v, dbg_)
+                    elif dbg_ and isinstance(v, str):
+                        if any(ch in v for ch in '"\\\n\t\r') or not v.isprintable():
+                            raise NoEval('debug formatting of a string with escapes')
+                        v = '"%s"' % v
+                    elif dbg_ and hasattr(v, 'fmt_debug'):
+                        v = v.fmt_debug()
+                    elif dbg_ and not isinstance(v, int):
+                        raise NoEval('debug formatting of %r' % (v,))
                     elif not isinstance(v, (str, int)) and not hasattr(v, 'fmt_display'):
                         raise NoEval('formatting of %r' % (v,))
                     out += (v.fmt_display() if hasattr(v, 'fmt_display') else str(v)) + rest
